@@ -19,6 +19,8 @@ func main() {
 		oneshotMain()
 	case "replay":
 		replayMain()
+	case "dettest":
+		dettestMain()
 	case "build":
 		o := BuildPath(os.Args[2])
 		fmt.Println(o.Text(), o.PanicAt)
